@@ -83,10 +83,20 @@ func Enumerate(thorough bool, yield func(idx int, c Case)) int {
 			}
 		}
 	}
+	// two global transactions one after the other on the same pooled connection (fault-free)
+	for _, ver := range []string{"8.0.28", "8.0.29"} {
+		for _, p := range [][]string{{"upd"}, {"ins"}} {
+			for _, p2 := range []string{"commit", "rollback"} {
+				yield(idx, Case{p, "auto2", "none", 0, p2, "same", ver})
+				idx++
+			}
+		}
+	}
 	return idx
 }
 
 type runResult struct {
+	secondErr string
 	xid       string
 	stepErrs  []string
 	commitErr string
@@ -168,7 +178,7 @@ func run(e *sys.Env, c Case) *runResult {
 			var ex interface {
 				ExecContext(ctx context.Context, q string, args ...interface{}) (sql.Result, error)
 			} = e.XA
-			if c.Shape == "tx" {
+			if c.Shape == "tx" { // (auto and auto2 use autocommit statements)
 				t, err := e.XA.BeginTx(ctx, nil)
 				if err != nil {
 					rr.bizErr = "begin: " + err.Error()
@@ -237,6 +247,27 @@ func run(e *sys.Env, c Case) *runResult {
 	rr.journal = e.Srv.Journal()
 	rr.events = e.TC.Events()
 	rr.post = e.Srv.Snapshot()
+	if c.Shape == "auto2" && !rr.hung {
+		// a second global transaction on the same handle: the pool hands the same connection out again
+		func() {
+			defer func() {
+				if r := recover(); r != nil {
+					rr.secondErr = fmt.Sprintf("panic escaped: %v", r)
+				}
+			}()
+			var xid2 string
+			err := tm.WithGlobalTx(context.Background(), &tm.GtxConfig{Name: "c17-second"}, func(ctx context.Context) error {
+				xid2 = tm.GetXID(ctx)
+				_, err := e.XA.ExecContext(ctx, "DELETE FROM t_s1 WHERE id = 3")
+				return err
+			})
+			if err != nil {
+				rr.secondErr = err.Error()
+			} else if xid2 != "" {
+				e.TC.DriveCommit(xid2)
+			}
+		}()
+	}
 	return rr
 }
 
@@ -247,6 +278,9 @@ func check(e *sys.Env, c Case, rr *runResult) (clause, detail string) {
 	d := func(f string, a ...interface{}) string { return fmt.Sprintf(f, a...) }
 	if rr.hung {
 		return "phase-two-hangs", "a phase-two handler never returned"
+	}
+	if c.Shape == "auto2" && rr.secondErr != "" {
+		return "second-transaction-on-connection-fails", d("the first global transaction finished (phase two %v); a second one on the same handle failed: %s", rr.phase2, rr.secondErr)
 	}
 	// 1. the XA state machine of the database never had to reject a command the fault plan did not cause
 	for _, j := range rr.journal {
